@@ -207,3 +207,30 @@ func VerifPathLockClose() {
 	verifAssert(f3.Close() == nil, "Close succeeds")
 	verifReach("end")
 }
+
+// VerifPathLockResizeFail: natively the failures cannot be injected; the same
+// sequence runs without them (counterexamples are confirmed inside the engine).
+func VerifPathLockResizeFail() {
+	dir, derr := os.MkdirTemp("", "verifc18")
+	verifAssert(derr == nil, "temp dir")
+	defer os.RemoveAll(dir)
+	path := filepath.Join(dir, "queue.dat")
+	lockPath := path + ".lock"
+	opts := Options{MaxSize: 64 * verifPageSize, PageSize: verifPageSize}
+	f0, err0 := Open(path, 0600, opts)
+	verifAssert(err0 == nil, "creating the file succeeds")
+	verifAssert(f0.Close() == nil, "Close succeeds")
+	o := opts
+	newMax := []uint64{96, 48}[verifChoose(2)]
+	o.MaxSize, o.Flags, o.Prealloc = newMax*verifPageSize, FlagUpdMaxSize, verifBool("prealloc")
+	verifChoose(len(verifFaultKinds))
+	verifChoose(3)
+	f, err := Open(path, 0600, o)
+	verifAssert(err == nil, "Open with a new maximum size succeeds")
+	verifAssert(verifFlockHeld(lockPath), "the path lock is held while the File is open")
+	_ = f.Close()
+	verifAssert(!verifFlockHeld(lockPath), "after Close the path lock is free")
+	f2, err2 := Open(path, 0600, Options{PageSize: verifPageSize})
+	verifAssert(err2 == nil && f2.Close() == nil, "the path opens again")
+	verifReach("end")
+}
